@@ -157,7 +157,8 @@ pub fn fixtures() -> Vec<Vec<u8>> {
     v
 }
 
-pub fn run<W: Write>(out: &mut W, seed: u64, n: usize, _opts: &HashMap<String, String>) {
+pub fn run<W: Write>(out: &mut W, seed: u64, n: usize, opts: &HashMap<String, String>) {
+    crate::wsgen::HUGE_PCT.store(opts.get("huge").and_then(|s| s.parse().ok()).unwrap_or(0), std::sync::atomic::Ordering::Relaxed);
     let mut rng = Rng::new(seed ^ 0x9a25e);
     let fix = fixtures();
     let mut id = 0;
@@ -177,7 +178,7 @@ pub fn run<W: Write>(out: &mut W, seed: u64, n: usize, _opts: &HashMap<String, S
             // a real diff of a generated file (all header dialects), 30% of them with a hunk that replaces a
             // block of 66-130 lines by as many others
             use crate::wsgen::*;
-            let big = rng.chance(30);
+            let big = rng.chance(12);
             let old = if big { big_content(&mut rng) } else { rand_content(&mut rng, 12, true) };
             let ops = if big { big_script(&mut rng, &old) } else { rand_script(&mut rng, &old, true) };
             let c = *rng.pick(&[0usize, 1, 2, 3]);
